@@ -263,10 +263,10 @@ def run(cx):
     ok = len(d) == 1 and isinstance(d[0], ast.IfExp) and norm(d[0].body) in (f"'\"' + {kp} + '\"'",) and norm(d[0].test) == f"isinstance({kp}, str)" and norm(d[0].orelse) == f"str({kp})"
     cx.ob("R11d", key_fn, ok, "string keys get one '\"' on each side, other keys str()" if ok else "key quoting altered")
     # _gen_ch_lines: cut at None, flush the rest
-    _lines_rule(cx, lines)
+    cx.guard(_lines_rule, cx, lines)
 
     # ---------------------------------------------------------------- R11e
-    _kinds(cx, simple, is_simple, gen, obj)
+    cx.guard(_kinds, cx, simple, is_simple, gen, obj)
 
 
 def _same_table(a, b):
